@@ -45,6 +45,20 @@ theorem sp2ext1_parse (e : Ext) (h : e.int64) :
   rw [sp2ext1_print, Option.bind_some]
   exact parseExt_id _ ⟨h.1, h.2.1, h.2.2.1, h.1, h.2.2.2.2⟩
 
+/-- a list of printed IDs parses back to the list of voxels: the hypothesis `parseAll ids = some es` of the list-level theorems
+(C03, C04, C05, C08, C11, C13) is met by the printed form of EVERY list of valid IDs -/
+theorem parseAll_ids (es : List Ext) (h : ∀ e ∈ es, e.int64) : parseAll (es.map Ext.id) = some es := by
+  unfold parseAll
+  induction es with
+  | nil => rfl
+  | cons e r ih =>
+    have he := parseExt_id e (h e (by simp))
+    have hr := ih (fun x hx => h x (by simp [hx]))
+    simp only [List.map_cons, List.mapM_cons, he, hr, Option.pure_def, Option.bind_eq_bind, Option.bind_some]
+
+theorem parseAll_ids_valid (es : List Ext) (h : ∀ e ∈ es, e.valid) : parseAll (es.map Ext.id) = some es :=
+  parseAll_ids es (fun e he => (h e he).int64)
+
 /-- non-vacuity: a concrete valid ID -/
 example : (⟨25, 29803148, 13212522, 25, -3⟩ : Ext).valid := by decide
 
